@@ -1,2 +1,3 @@
 import Props.C03
+import Props.C06
 import Props.C15
